@@ -172,6 +172,13 @@ def h1Fields (r : WReq) (host : Bytes) (f : Framing) : Hdr :=
     ++ writeSubset r.extra [] orderMode
   if orderMode then sortKeyValues collected order else collected
 
+/-- the header lines written for a list of key/value groups: one `(name, value)` per value. -/
+def linesOf (h : Hdr) : List (Bytes × Bytes) := h.flatMap fun kv => kv.values.map fun v => (kv.key, v)
+
+def renderLine (l : Bytes × Bytes) : Bytes := l.1 ++ [58, 32] ++ l.2 ++ crlf
+
+def renderLines (ls : List (Bytes × Bytes)) : Bytes := ls.flatMap renderLine
+
 def renderField (kv : KV) : Bytes :=
   kv.values.flatMap fun v => kv.key ++ [58, 32] ++ v ++ crlf
 
